@@ -136,7 +136,8 @@ def step (cs : CState) (fs : List String) (obs : String) : CState × String × S
     ({ st := init b (int limit) cap shards, desync := false }, obs, "ok")
   | "ct" :: op :: args =>
     let (ires, isnapS) := splitBar obs
-    if cs.desync || isnapS = "slow" then ({ cs with desync := true }, obs, "ok")
+    if obs.startsWith "HANG" then (cs, "completes", "bad:operation-does-not-complete")
+    else if cs.desync || isnapS = "slow" then ({ cs with desync := true }, obs, "ok")
     else
       let st := cs.st
       let isnap := parseSnap isnapS
